@@ -162,6 +162,9 @@ func indexOf(path []string, pred func(string) bool) (first, last int) {
 }
 
 func r6paths(c *core.Ctx, fn *ssa.Function) {
+	if r6pathsX(c) {
+		return
+	}
 	const R1, R2, R3 = "R6.once", "R6.cipher-iff", "R6.plain"
 	c.Rule(R1, "NASEncode: on every protected success path COUNT is read unchanged and advanced exactly once after the last read; reset iff new context; never advanced on an error path")
 	c.Rule(R2, "NASEncode: NASEncrypt is executed exactly on the paths where the header type is 2 or 4")
